@@ -170,7 +170,8 @@ func C10(c *Ctx) error {
 								ks.wantMsg = "bad"
 							case "custom_message", "wrapped_custom_message":
 								nf := dynamicpb.NewMessage(nfMD)
-								nf.Set(nfMD.Fields().ByName("resource"), protoreflect.ValueOfString("user/7"))
+								// (percent signs, a format verb and an escaped slash: an error body is quoted, never interpreted)
+								nf.Set(nfMD.Fields().ByName("resource"), protoreflect.ValueOfString("user/7 95% full %d ssd%2Feu"))
 								nf.Set(nfMD.Fields().ByName("code"), protoreflect.ValueOfInt32(404))
 								lf := dynamicpb.NewMessage(leafMD)
 								lf.Set(leafMD.Fields().Get(0), protoreflect.ValueOfString("x"))
@@ -178,7 +179,7 @@ func C10(c *Ctx) error {
 								nf.Mutable(nfMD.Fields().ByName("ids")).List().Append(protoreflect.ValueOfInt64(9007199254740993))
 								handler = map[string]any{"kind": "err_custom", "err_type": pkg + ".NotFoundError", "err_val": jsonRaw(gen.PJ(nf)), "wrapped": src == "wrapped_custom_message"}
 								ks.wantJSON = canonJSONBytes(gen.PJ(nf))
-								ks.wantMsg = "user/7"
+								ks.wantMsg = "user/7 95% full %d ssd%2Feu"
 							}
 							if via == "serve" {
 								raw := []byte(body)
@@ -372,6 +373,10 @@ func C10(c *Ctx) error {
 			}
 			if k.wantMsg != "" && specBody == "custom_message" && !strings.Contains(fmt.Sprint(e["text"]), fmt.Sprint(wantStatus)) {
 				res.Violation("client_status", fmt.Sprintf("%s: client error %q does not carry the status", label, e["text"]), replay)
+			}
+			// … and the body as the server sent it (percent signs and all): the message text is a member of that body
+			if k.wantMsg != "" && specBody == "custom_message" && k.ct == "application/json" && !strings.Contains(fmt.Sprint(e["text"]), k.wantMsg) {
+				res.Violation("client_body_altered", fmt.Sprintf("%s: client error %q does not carry the response body's text %q", label, e["text"], k.wantMsg), replay)
 			}
 		}
 	}
